@@ -19,9 +19,22 @@ MANIFEST = {
             "(ref = observer entries + queued nodes in every reachable state) hence session_alive_while_observed / "
             "idle_reclaim_keeps_observed; latest_eventually_notified_run (no lost wake-up: a stale entry keeps observe_pending and "
             "the resource flag set in every reachable state; a non-stale entry has been sent the current state; explicit fairness "
-            "hypothesis: not back-pressured when the walk reaches it => the I/O step writes the latest state). M is tied to the "
+            "hypothesis: not back-pressured when the walk reaches it => the I/O step writes the latest state); "
+            "con_active_eq_queued (in every reachable state a session's con_active = its Confirmable notifications in the "
+            "retransmission queue, so the NSTART back-pressure can only be caused by a Confirmable that is really outstanding, "
+            "whatever other sessions did, equal token values included) hence latest_eventually_notified_when_acknowledged / "
+            "fair_step_decreases_stale_when_acknowledged (fairness stated on the queue, not on the counter); "
+            "reset_leaves_other_clients / give_up_leaves_other_clients / ack_leaves_other_clients (the receive path of a Reset "
+            "or ACK of client c and coap_handle_failed_notify for c leave session object, queued notifications and observer "
+            "entries of every other client exactly as they were); the observation's "
+            "identity = M's transcription of coap_cache_derive_key_w_ignore(..., {ETag, OSCORE}) over the request's option "
+            "list (Model/ObserveKey.lean): observation_identity_ignores(_etag) (ETag, OSCORE, Observe and NoCacheKey options "
+            "never change the key), observation_identity_exact (equal keys <=> equal cache-key options: numbers, lengths, "
+            "values, order), reregistration_same_target_replaces (run level: never two entries of a session whose requests "
+            "have the same cache-key options, whatever tokens/ETags), registration_of_other_target_keeps. M is tied to the "
             "compiled code by exact trace equality on an H-sim harness (real server context, 1..3 resources, 1..4 real client "
-            "contexts, virtual clock, scripted network): every datagram, every subscriber list, counter, flag, session "
+            "contexts whose token values are per-client or shared between clients, requests with and without ETag / Size1 "
+            "options, virtual clock, scripted network): every datagram, every subscriber list, counter, flag, session "
             "ref/con_active/tx_mid and send-queue deadline after every event; the implementation's trace is in addition "
             "judged directly against the property by an oracle that never looks at M.",
     "note": "partial: (i) Reset — no_notification_after_reset_run_partial covers a Reset naming a queued CON or the entry's "
@@ -38,7 +51,9 @@ MANIFEST = {
             "infinite fair schedule is not formalised as a temporal-logic theorem. Retransmissions (tag rtx) of a CON written before a deregistration are not cancelled by "
             "coap_delete_observer and are not counted as new notifications. Trusted: Lean kernel (+ propext, Classical.choice, "
             "Quot.sound), T1 extractor, harness/observe.c + sim_core.h, generators, the oracle, the hand transcription M "
-            "(checked on the cases run only); SHA-256 cache key assumed injective; resource ids pairwise distinct (IdsNodup).",
+            "(checked on the cases run only); SHA-256 assumed injective on the byte strings fed to it (the framing of those "
+            "strings is proved injective: observation_identity_exact, after fix f201070); resource ids pairwise distinct "
+            "(IdsNodup).",
     "design_ref": "DESIGN.md §4 C11, design/C11.md",
 }
 LEAN_MODULES = ["CoapVerif.Props.C11"]
@@ -60,26 +75,42 @@ REQUIRED_THEOREMS = ["reregistration_replaces", "observe_strictly_increasing", "
                      "fair_when_first_stale", "latest_eventually_notified_first_stale", "observe_strictly_increasing_run_init",
                      "no_notification_after_session_loss_run_any", "reachable_invariants_init",
                      "observe_strictly_increasing_run_events", "staleOf_zero_iff", "quiet_events_never_add_stale",
-                     "fair_step_decreases_stale"]
+                     "fair_step_decreases_stale",
+                     # the observation's identity (cache key) and the NSTART bookkeeping
+                     "not_part_of_identity", "observation_identity_ignores", "observation_identity_ignores_etag",
+                     "observation_identity_exact", "reregistration_same_target_replaces", "registration_of_other_target_keeps",
+                     "digestInput_aliased_before_fix", "con_active_eq_queued", "con_active_eq_queued_init",
+                     "cancel_leaves_other_sessions", "latest_eventually_notified_when_acknowledged",
+                     "fair_step_decreases_stale_when_acknowledged", "reset_leaves_other_clients",
+                     "give_up_leaves_other_clients", "ack_leaves_other_clients"]
 RULE = ("event histories (8..90 events + optional fair tail) over 1..3 observable resources (default / NOTIFY_CON / NOTIFY_NON / "
         "NOTIFY_NON_ALWAYS, Observe counter started at 0, mid-range, and just below 2^23 / 2^24 so that it wraps) and 1..4 real "
-        "clients: register / re-register (same token, other token same query, other query) / Observe=1 cancel / plain GET with CON "
-        "and NON requests, bursts of changes between I/O steps, I/O steps, time advances across every retransmission deadline and "
+        "clients: register / re-register (same token, other token same query, other query; query variants none, a=1, b=2, a&b and "
+        "one option with the bytes 61 0f 00 62; 30 % of the requests carry options outside the observation's identity: one or two "
+        "ETags, Size1) / Observe=1 cancel / plain GET with CON and NON requests; token values drawn per history from a pool that is "
+        "per-client, shared between clients (equal bytes whichever client sends them) or mixed; bursts of changes between I/O steps, I/O steps, time advances across every retransmission deadline and "
         "the idle session timeout, ACK or RST of the k-th most recent notification (never = loss, later = delay, again = "
         "duplicate), handler starts answering 4.04, server-side session loss, resource deletion; about 12 % of the histories use a "
         "resource whose representation needs block-wise transfer (body of 2.5 blocks at SZX none/0/1/2/4/6, default or NOTIFY_CON "
         "flags): register, change, I/O step (first block of the notification), the client fetches 0..all further blocks with GET "
         "Block2 num=k and no Observe option, further changes within 2 s of the last block request while blocks are outstanding "
         "(libcoap's lg_xmit deferral branch), background events, then a block-wise fair tail (fetch the rest or go silent, ACK "
-        "every CON, 5 x 2001 ms with the I/O loop, io io io); these lines are judged by the oracle only; non-trivial = a history "
+        "every CON, 5 x 2001 ms with the I/O loop, io io io); these lines are judged by the oracle only; about 10 % are interference histories (2..4 clients observing "
+        "under the same token value and message ids, mostly NOTIFY_CON, Confirmables outstanding to several at once, then per client "
+        "in random order ACK / Reset / silence until give-up / Observe=1 / re-registration with other token and ETags / session "
+        "loss, further changes, fair tail); non-trivial = a history "
         "in which the server sent at least one notification")
 TRUSTED_BASE = ["Lean 4.33 kernel; axioms allowed: propext, Classical.choice, Quot.sound (audited per theorem each run)",
                 "T1 extractor extract/obsconst.c (constants as compiled, the counter's successor function by evaluation)",
                 "harness/observe.c on harness/sim_core.h (virtual clock, scripted network), generators, string comparison",
                 "props/c11_oracle.py: the property judged on the implementation's trace",
                 "M (CoapVerif/Model/Observe.lean) is a hand transcription; checked against the compiled code only on the cases run",
+                "Driver/Observe.lean reqOpts: the option list of each scripted request, written to mirror send_request() of harness/observe.c "
+                "(a mismatch shows as a tie break on the lines with ETag / Size1 / query variants)",
                 "Driver/Observe.lean answers block-wise lines with a fixed marker instead of a replay (recognised from the input line)"]
-ASSUMPTIONS = ["the observe cache key (SHA-256 over the request's cache-key options) is injective on the option lists used",
+ASSUMPTIONS = ["SHA-256 is injective on the byte strings libcoap feeds it for the observe cache key (M stands for the digest by an injective "
+               "encoding of that byte string; that the byte string determines the cache-key options is a theorem); GET only (the "
+               "FETCH body branch of the key derivation is not modelled)",
                "allocation failures and send errors inside the notify loop are not modelled (C18)",
                "block-wise notification bodies: lg_xmit and the deferral of a notification behind a block-wise transfer in progress "
                "are not in M; such histories are judged on the implementation's trace by the oracle only, block transfer itself "
@@ -126,10 +157,11 @@ def gen_history(rng, nev=None):
     nev = nev or rng.choice([8, 15, 25, 40, 60, 90])
     mids = [rng.randrange(0, 65536) for _ in range(ncli)]
     style = rng.random()
+    toks = rng.choice(TOKEN_POOLS)
     evs = []
     # most histories start with a few registrations so that something happens
     for _ in range(rng.choice([0, 1, 2, 3, 4])):
-        evs.append(gen_req(rng, "reg", ncli, nres, mids))
+        evs.append(gen_req(rng, "reg", ncli, nres, mids, toks))
     while len(evs) < nev:
         x = rng.random()
         if x < 0.22:
@@ -145,11 +177,11 @@ def gen_history(rng, nev=None):
         elif x < 0.72:
             evs.append("rst:%d:%d" % (rng.randrange(ncli), note_index(rng)))
         elif x < 0.84:
-            evs.append(gen_req(rng, "reg", ncli, nres, mids))
+            evs.append(gen_req(rng, "reg", ncli, nres, mids, toks))
         elif x < 0.90:
-            evs.append(gen_req(rng, "can", ncli, nres, mids))
+            evs.append(gen_req(rng, "can", ncli, nres, mids, toks))
         elif x < 0.92:
-            evs.append(gen_req(rng, "get", ncli, nres, mids))
+            evs.append(gen_req(rng, "get", ncli, nres, mids, toks))
         elif x < 0.945:
             evs.append("err:%d:%d" % (rng.randrange(nres), rng.choice([0, 1, 1])))
         elif x < 0.97:
@@ -178,15 +210,105 @@ def note_index(rng):
     return rng.randrange(0, 12)
 
 
-def gen_req(rng, op, ncli, nres, mids):
+# token indices a history draws from: < 128 = a value only that client uses, >= 128 = the SAME value for every client (tokens
+# are unique per client endpoint only, so two clients may well pick equal ones: an observer is (client, token))
+TOKEN_POOLS = [[1, 1, 1, 2, 3]] * 5 + [[128, 128, 128, 129, 1]] * 3 + [[1, 2, 128, 129, 130], [128], [255, 127, 128, 0]]
+QUERIES = [0, 0, 0, 0, 1, 1, 2, 2, 3, 4]      # 3 = ?a&b (two options), 4 = one option with the bytes a 0f 00 b: distinct targets
+EXTRAS = [0] * 7 + [1, 1, 2, 3, 4, 5]         # options that are not part of the observation's identity: ETag(s), Size1 (NoCacheKey)
+
+
+def gen_req(rng, op, ncli, nres, mids, toks=(1, 1, 1, 2, 3)):
+    c = rng.randrange(ncli)
+    if rng.random() < 0.9:
+        mids[c] = (mids[c] + 1) % 65536
+    x = rng.choice(EXTRAS)
+    return "%s:%d:%d:%d:%d:%s:%d%s" % (op, c, rng.randrange(nres), rng.choice(toks), rng.choice(QUERIES),
+                                       rng.choice("CCN"), mids[c], ":%d" % x if x else "")
+
+
+INTERFERENCE_SHARE = 0.10      # share of the histories built around several clients observing under EQUAL token values
+
+
+def gen_interference_history(rng):
+    """Two to four clients observe the same or different resources, most of them under the SAME token value (and the same
+    message ids, as independent clients starting from equal counters would); Confirmable notifications are outstanding to
+    several of them at once; then each client does something else with its notification — ACK, Reset, silence until the server
+    gives up, Observe=1, re-registration under another token with other ETags, session loss — in random order, further
+    changes, and the fair tail.  Whatever ends one client's observation must leave the others' alone."""
+    st = rng.choice([30, 300])
+    nres = rng.choice([1, 1, 2, 3])
+    ncli = rng.choice([2, 2, 3, 4])
+    modes = [rng.choice("cccdda") for _ in range(nres)]
+    rs = ",".join("%s%d" % (m, rng.choice(STARTS)) for m in modes)
+    shared = rng.choice([128, 128, 129, 200, 255])
+    mid0 = rng.randrange(0, 65536)
+    mids = [mid0 if rng.random() < 0.7 else rng.randrange(0, 65536) for _ in range(ncli)]
+    evs = []
+    obs = []
+
+    def mid(c):
+        mids[c] = (mids[c] + 1) % 65536
+        return mids[c]
+
+    for c in range(ncli):
+        t = shared if rng.random() < 0.85 else rng.choice([1, 2, shared + 1 if shared < 255 else 128])
+        r = rng.randrange(nres) if rng.random() < 0.5 else 0
+        q = rng.choice([0, 0, 0, 1])
+        x = rng.choice(EXTRAS)
+        evs.append("reg:%d:%d:%d:%d:%s:%d%s" % (c, r, t, q, rng.choice("CCN"), mid(c), ":%d" % x if x else ""))
+        obs.append((c, r, t, q))
+    for _ in range(rng.choice([1, 2, 2, 3, 4])):
+        for r in set(o[1] for o in obs) if rng.random() < 0.7 else [rng.choice(obs)[1]]:
+            evs += ["chg:%d" % r] * rng.choice([1, 1, 2])
+        # a default resource sends Confirmable only every (COAP_OBS_MAX_NON+1)-th time: sometimes run up to it
+        evs.append("io")
+        if rng.random() < 0.3:
+            for _ in range(rng.choice([3, 4, 5])):
+                evs += ["chg:%d" % rng.choice(obs)[1], "io"]
+        order = list(range(ncli))
+        rng.shuffle(order)
+        for c in order:
+            x = rng.random()
+            _, r, t, q = obs[c]
+            if x < 0.35:
+                evs.append("ack:%d:%d" % (c, 1000))
+            elif x < 0.6:
+                evs.append("rst:%d:%d" % (c, rng.choice([1000, 1000, 1000, 1001])))
+            elif x < 0.68:
+                evs.append("can:%d:%d:%d:%d:%s:%d" % (c, r, t, q, rng.choice("CN"), mid(c)))
+            elif x < 0.76:
+                t2 = rng.choice([shared, 1, 2, 129])
+                evs.append("reg:%d:%d:%d:%d:%s:%d:%d" % (c, r, t2, q, rng.choice("CN"), mid(c), rng.choice([0, 1, 2, 3, 5])))
+                obs[c] = (c, r, t2, q)
+            elif x < 0.8:
+                evs.append("lost:%d" % c)
+            # else: silence (the datagram or its ACK is lost)
+        x = rng.random()
+        if x < 0.25:
+            evs += ["adv:2000", "adv:4000", "adv:8000", "adv:16000", "adv:32000", "adv:1"][:rng.choice([1, 2, 6, 6])]   # retransmissions … give-up
+        elif x < 0.5:
+            evs.append("adv:%d" % rng.choice(ADV))
+    for _ in range(rng.choice([0, 1, 2])):
+        evs += ["chg:%d" % rng.choice(obs)[1], "io"]
+    if rng.random() < 0.8:
+        for _ in range(2):
+            for c in range(ncli):
+                for k in range(8):
+                    evs.append("ack:%d:%d" % (c, 1000 + k))
+        evs += ["io", "io", "io"]
+    return "obs st=%d R=%s C=%d %s" % (st, rs, ncli, " ".join(evs))
+
+
+BLOCK_SHARE = 0.12      # share of the histories that use a block-wise resource (judged by the oracle only, not replayed through M)
+
+
+def gen_block_req(rng, op, ncli, nres, mids):
+    # block-wise lines keep the original request alphabet (blk:… events accept the query variants 0..2 only)
     c = rng.randrange(ncli)
     if rng.random() < 0.9:
         mids[c] = (mids[c] + 1) % 65536
     return "%s:%d:%d:%d:%d:%s:%d" % (op, c, rng.randrange(nres), rng.choice([1, 1, 1, 2, 3]), rng.choice([0, 0, 0, 1, 2]),
                                      rng.choice("CCN"), mids[c])
-
-
-BLOCK_SHARE = 0.12      # share of the histories that use a block-wise resource (judged by the oracle only, not replayed through M)
 
 
 def gen_block_history(rng):
@@ -260,7 +382,7 @@ def gen_block_history(rng):
         elif x < 0.68:
             evs.append("rst:%d:%d" % (rng.randrange(ncli), note_index(rng)))
         elif x < 0.78:
-            evs.append(gen_req(rng, rng.choice(["reg", "reg", "can", "get"]), ncli, nres, mids))
+            evs.append(gen_block_req(rng, rng.choice(["reg", "reg", "can", "get"]), ncli, nres, mids))
         elif x < 0.9 and obs:
             c, r, t, q = rng.choice(obs)
             if r in bidx:
@@ -289,11 +411,20 @@ def gen_block_history(rng):
     return "obs st=%d R=%s C=%d %s" % (st, rs, ncli, " ".join(evs))
 
 
+def gen_any(rng):
+    x = rng.random()
+    if x < BLOCK_SHARE:
+        return gen_block_history(rng)
+    if x < BLOCK_SHARE + INTERFERENCE_SHARE:
+        return gen_interference_history(rng)
+    return gen_history(rng)
+
+
 def generate(ctx, escalate=False):
     n = 40000 if ctx.thorough() else 2000
     if escalate:
         n *= 3
-    return [gen_block_history(ctx.rng) if ctx.rng.random() < BLOCK_SHARE else gen_history(ctx.rng) for _ in range(n)]
+    return [gen_any(ctx.rng) for _ in range(n)]
 
 
 def strip_client(s):
@@ -409,6 +540,14 @@ def classify(c):
         k.append("blockwise")
         if O.held_back_behind_blocks(i): k.append("held-back")      # coverage only: the lg_xmit deferral branch was taken
     if ".1." in i: pass
+    # coverage only (from the INPUT): requests with options outside the observation's identity; one token value used by >= 2 clients
+    reqs = [w.split(":") for w in c["input"].split()[4:] if w[:4] in ("reg:", "can:", "get:")]
+    if any(len(f) == 8 and f[7] != "0" for f in reqs): k.append("extra-opts")
+    by_tok = {}
+    for f in reqs:
+        if len(f) >= 4 and f[3].isdigit() and int(f[3]) >= 128:
+            by_tok.setdefault(f[3], set()).add(f[1])
+    if any(len(v) > 1 for v in by_tok.values()): k.append("shared-token")
     return "+".join(k) or "quiet"
 
 
@@ -419,5 +558,5 @@ def search(ctx, tie_breaks, proof):
         w = c["input"].split()
         for cut in range(5, len(w) + 1, max(1, len(w) // 12)):
             out.append(" ".join(w[:cut] + ["io", "io", "io"]))
-    out += [gen_block_history(ctx.rng) if ctx.rng.random() < BLOCK_SHARE else gen_history(ctx.rng) for _ in range(4000)]
+    out += [gen_any(ctx.rng) for _ in range(4000)]
     return out
